@@ -134,8 +134,9 @@ func (ix *PointIndex) InsertPolygon(polygon geom.Polygon) error {
 // InsertPoint inserts a Point by its absolute coord
 func (ix *PointIndex) InsertPoint(point geom.Point) error {
 	intPoint := intgeom.FromGeomPoint(point)
-	deepestX := int((intPoint.X() - ix.intExtent.MinX()) / ix.deepestRes)
-	deepestY := int((intPoint.Y() - ix.intExtent.MinY()) / ix.deepestRes)
+	// floor, because truncating would put a point less than one pixel left of or below the extent in pixel 0
+	deepestX := int(mathhelp.IFloorDiv(intPoint.X()-ix.intExtent.MinX(), ix.deepestRes))
+	deepestY := int(mathhelp.IFloorDiv(intPoint.Y()-ix.intExtent.MinY(), ix.deepestRes))
 	return ix.InsertCoord(deepestX, deepestY)
 }
 
